@@ -17,18 +17,18 @@ CHECKS = {
     'C05': ('TLA+ spec + TLC model checking + TLC trace validation (PROP=C05: no event panics)', '4 C05', 'model_checking', ''),
     'C06': ('TLA+ RawLRU.tla + TLC closure + trace validation of every transition (PolicyStep)', '4 C06', 'model_checking', ''),
     'C07': ('TLA+ Segmented.tla + TLC closure + trace validation of every transition (PolicyStep)', '4 C07', 'model_checking', ''),
-    'C08': ('TLA+ TwoQueue.tla + TLC closure + trace validation of every transition (PolicyStep)', '4 C08', 'model_checking', ''),
+    'C08': ('TLA+ TwoQueue.tla + TLC closure + trace validation of every transition (PolicyStep), incl. observed quota / ghost bound = floor(size x ratio) for derived and explicit ratios', '4 C08', 'model_checking', ''),
     'C09': ('TLA+ Adaptive.tla + TLC closure + trace validation of every transition (PolicyStep)', '4 C09', 'model_checking', ''),
     'C10': ('TLA+ WTinyLFU.tla + TLC closure + trace validation with the real estimator verdict', '4 C10', 'model_checking', ''),
     'C12': ('TLA+ spec + TLC model checking + TLC trace validation (PROP=C12)', '4 C12', 'model_checking', ''),
     'C13': ('TLA+ spec + TLC model checking + TLC trace validation (PROP=C13: read-only events leave the full observation unchanged)', '4 C13', 'model_checking', ''),
-    'C03': ('TLA+ structural audit predicate (C03Audit) evaluated by TLC on the hooked list/index dump after every call of every TLC-generated behaviour; pointer-level model RawLRUHeap.tla closed by TLC; quarantining+poisoning allocator (quick) and Miri on a sample of the generated behaviours (thorough) as memory monitors', '4 C03', 'model_checking', ''),
-    'C04': ('TLA+ token-conservation predicate (C04Event) evaluated by TLC on drop-tracked keys/values of every call of every TLC-generated behaviour, cache dropped after every test', '4 C04', 'model_checking', ''),
+    'C03': ('TLA+ structural audit predicate (C03Audit) evaluated by TLC on the hooked list/index dump after every call of every TLC-generated behaviour; pointer-level models RawLRUHeap / SegHeap / TwoQHeap / ArcHeap / WTinyHeap closed by TLC (Safe, WF, Reachable, Accounted, Refines); monitor anomalies judged on panicking calls too; quarantining+poisoning allocator (quick) and Miri on a sample of the generated behaviours (thorough) as memory monitors', '4 C03', 'model_checking', ''),
+    'C04': ('TLA+ token-conservation predicate (C04Event) evaluated by TLC on drop-tracked keys/values of every call of every TLC-generated behaviour, cache dropped after every test; the pointer-level models (RawLRUHeap / SegHeap / TwoQHeap / ArcHeap / WTinyHeap: Accounted, Refines) closed by TLC and bound to the real caches by *HeapTrace on the same traces', '4 C04', 'model_checking', ''),
     'C16': ('TLA+ C16Step: clone in every reachable state (TLC closure), lock-step operation on original and clone, TLC validates equality/independence', '4 C16', 'model_checking', ''),
     'C17': ('TLA+ PairTrace.tla: the same TLC-generated drivers executed under five BuildHashers and a shuffled heap; TLC checks the traces are equal record by record', '4 C17', 'model_checking', ''),
     'C11': ('TLA+ TinyLFU.tla (abstract exact-count estimator + colliding-cell model checked by TLC for every collision structure) + TLC trace validation of the real TinyLFU (std and no_std builds): per-step observation relation and exact-count monitor', '4 C11', 'model_checking', ''),
     'C14': ('TLA+ Iter.tla cursor machine (TLC: every word over {next,next_back}) + IterTrace.tla: TLC recomputes the specification list by folding the policy spec over the path and validates every logged iterator run (12 families x lists x words) in every reachable state', '4 C14', 'model_checking', ''),
-    'C18': ('fault enumeration driven by TLC-generated behaviours: for every reachable state x operation, the i-th call into user code of every kind (Hash, Eq, Clone, Drop, hasher, callback, KeyHasher) is made to panic for every i; TLC validates the TLA+ predicate C18Event (no double drop, nothing released or freed still reachable, no monitor anomaly) on the faulting call, on follow-up operations and on the final drop', '4 C18', 'fault_enumeration',
+    'C18': ('fault enumeration driven by TLC-generated behaviours: for every reachable state x operation, the i-th call into user code of every kind (Hash, Eq, Clone, Drop, hasher, callback, KeyHasher) is made to panic for every i; TLC validates the TLA+ predicate C18Event (no double drop, nothing released or freed still reachable, no monitor anomaly) on the faulting call, on follow-up operations and on the final drop; the five pointer-level models with a Panic alternative at every user-code call point are closed by TLC (Safe, Reachable) and must explain every faulting call of the real RawLRU / Segmented / 2Q / ARC / W-TinyLFU caches (*HeapTrace)', '4 C18', 'fault_enumeration',
             'Every injection point (kind x ordinal of the user-code call) of every operation from every explored state is exercised once; the TLA+ ownership predicate is evaluated by TLC on every recorded event. Exhaustive over injection points per explored (state, operation); states are the first N of the TLC closure in the quick tier.'),
     'C19': ('TLA+ Borrow.tla (loan / Send-Sync rules over the method table extracted from the sources); TLC enumerates every (method x program shape) and (type x marker x element kind) probe with its expected verdict; rustc compiles the rendered probes: a probe the model rejects but rustc accepts is a violation', '4 C19', 'other',
             'Model-generated compile probes: the decision is made by rustc on programs enumerated by TLC from the borrow model; positive controls must compile. Covers the listed program shapes only (no laundering through closures/trait objects).'),
